@@ -93,3 +93,8 @@ Proof. repeat split; reflexivity. Qed.
 From SymfcG Require Import SkelBasis SkelEig SkelIdx.
 Theorem c09_module_skeletons_in_force : SkelBasis_as_recorded = true /\ SkelEig_as_recorded = true /\ SkelIdx_as_recorded = true.
 Proof. repeat split; reflexivity. Qed.
+
+(** Further recorded sources this property's statement depends on (orthonormality of the compression matrix rests on the orbit routines): whole-function / skeleton match, regenerated on every run. *)
+From SymfcG Require Import ShapesPerm SkelPerm.
+Theorem c09_recorded_sources4_in_force : ShapesPerm_as_recorded = true /\ SkelPerm_as_recorded = true.
+Proof. repeat split; reflexivity. Qed.
